@@ -395,6 +395,50 @@ def observe(objs, cont_seed):
             for pi in parts(res[i])[:1]:
                 for pk in parts(res[k2])[:1]:
                     out['contcov:%d,%d' % (i, k2)] = guarded(lambda: hx(core.get_covariance(pi, pk)))
+    # declare intermediate results ON TOP of the (restored) numbers, then go on: the uid of a node declared now
+    # belongs to the current context and may sort before or after the uids of the restored intermediates
+    declared = []; newuid = {}
+    def norm_uid(s):
+        for k, v in newuid.items(): s = s.replace(k, v)
+        return s
+    archived = set(repr(p.uid) for _, p in flat if p.is_intermediate)
+    def rows(y, **kw):
+        # rows with equal u come out in uid order, and the uid of a node declared now is session dependent: canonical
+        # order (by u, then uid).  Components w.r.t. intermediates that were not archived are dropped by design
+        # ("with respect to every restored intermediate"): keep rows of archived and of newly declared intermediates
+        rs = [(repr(r.label), hx(r.u), norm_uid(repr(r.uid)), repr(r.uid)) for r in reporting.budget(y, trim=0, **kw)]
+        if kw.get('intermediate'):
+            rs = [r for r in rs if r[3] in archived or r[2] != r[3]]
+        return sorted((r[:3] for r in rs), key=lambda r: (r[1], r[2].replace('[', '(').replace(']', ')'), r[0]))
+    for j, y in enumerate(res[:4]):
+        try:
+            m = core.result(y, label='m%d' % j)
+        except Exception as ex:
+            out['decl%d' % j] = 'EXC:' + type(ex).__name__; continue
+        for i, p in enumerate(parts(m)):
+            if p.is_intermediate and repr(p.uid) not in newuid: newuid[repr(p.uid)] = '<new%d.%d>' % (j, i)
+        declared.append(m)
+        out['decl%d' % j] = (hx(m.x), guarded(lambda: hx(m.u)), guarded(lambda: hx(m.df)), repr(m.label), m.is_intermediate)
+        other = rng.choice(vals + declared)
+        k = rng.choice([2.0, -0.5, 1.5])
+        try:
+            w = m * k + other
+            if rng.random() < 0.5: w = core.result(w * m, label='w%d' % j)
+            for i, p in enumerate(parts(w)):
+                if p.is_intermediate and repr(p.uid) not in newuid: newuid[repr(p.uid)] = '<neww%d.%d>' % (j, i)
+        except Exception as ex:
+            out['after%d' % j] = 'EXC:' + type(ex).__name__; continue
+        out['after%d' % j] = (hx(w.x), guarded(lambda: hx(w.u)), guarded(lambda: hx(w.df)))
+        out['after%d:budget' % j] = guarded(lambda: rows(w))
+        if isinstance(w, lib.UncertainReal):
+            # (the intermediate budget of a complex result pairs components positionally: C17's subject)
+            out['after%d:ibudget' % j] = guarded(lambda: rows(w, intermediate=True))
+        wrt = [('m%d[%d]' % (j2, i2), p2) for j2, m2 in enumerate(declared) for i2, p2 in enumerate(parts(m2))] + \
+              [(a2, pa) for a2, pa in flat if pa.is_intermediate or pa.is_elementary][:8]
+        for i, p in enumerate(parts(w)):
+            for a2, pa in wrt:
+                out['after%d[%d]:sens:%s' % (j, i, a2)] = guarded(lambda: hx(reporting.sensitivity(p, pa)))
+                out['after%d[%d]:ucomp:%s' % (j, i, a2)] = guarded(lambda: hx(reporting.u_component(p, pa)))
     return out
 
 def archive_flags(tags, pool):
